@@ -229,7 +229,13 @@ def check_case(case, ctx):
         # stopped early (leastsq is not invariant under the rescaling of abscissa and contact point): recorded
         # finding F36, told apart by this descriptor entry
         chik, chi1 = float(fk.get("chi_sqr", 0.0)), float(f1.get("chi_sqr", 0.0))
-        if chik > max(1e6 * chi1, (1e-9 * frange) ** 2 * nfit):
+        stopped = chik > max(1e6 * chi1, (1e-9 * frange) ** 2 * nfit)
+        # ... in any pass: a 'relative cp' range is anchored at the contact point an earlier pass returned
+        for c1, ck in zip(rec1.calls, reck.calls):
+            q1, qk = c1.get("chisqr", 0.0), ck.get("chisqr", 0.0)
+            if qk > max(1e6 * q1, (1e-9 * frange) ** 2 * max(len(ck["x"]), 1)):
+                stopped = True
+        if stopped:
             desc = dict(desc, k_fit="stopped_above_optimum")
     if not sigma:
         # exact data: the relation is asserted when the reference (k = 1) fit has found the generating parameters;
